@@ -4,7 +4,8 @@
      hdr  [fmt      format of a generated document ("" for fixtures / mutants),
            path     the abstract path argument with concrete spellings (root "none" = no path given,
                     "dc" = DON'T-CARE: results out of an archive),
-           mutant   the input was a damaged-but-accepted file]
+           mutant   the input was a damaged-but-accepted file,
+           dcwrapper  EPUB whose dc elements sit in an OEB 1.x <dc-metadata> wrapper (domain of KF-C04-01)]
      ev   one event per accessor call with the projected return:
           Text     get_full_text / unit.get_text / image.get_content_type|caption|description   [cls, utf8]
           Num      unit_number of a unit, image_number of an image                                [cls, n]
@@ -44,7 +45,7 @@ TraceFileMeta ==
     /\ Ev.strsutf8 = TRUE              \* every string the metadata object carries is well-formed Unicode
 TraceProp ==
     /\ IsEvent("Prop")
-    /\ PropOK(Hdr.fmt, Ev.mtype, Ev.field, Ev.has, Ev.cls, Ev.stored, Ev.got)
+    /\ PropOK(Hdr.fmt, Ev.mtype, Ev.field, Ev.has, Ev.cls, Ev.stored, Ev.got, Hdr.dcwrapper)
 TraceUnits ==
     /\ IsEvent("Units")
     /\ Ev.cls = "str" /\ Utf8OK(Ev.cps)
